@@ -412,9 +412,16 @@ impl Ctx {
                 .with_sig("panic")),
             }
         };
+        let last_beat = Cell::new(Instant::now());
         let result = runner.run(&strategy, |v| {
             if !self.frozen.get() {
                 self.stats.borrow_mut().evaluations += 1;
+            }
+            // Heartbeat between cases, so that the parent's watchdog only fires when a single case
+            // hangs.
+            if !self.replay && last_beat.get().elapsed() > Duration::from_secs(5) {
+                last_beat.set(Instant::now());
+                self.emit(&json!({"t": "beat"}));
             }
             match run_one(&v) {
                 Ok(()) => Ok(()),
